@@ -49,7 +49,7 @@ def run(ctx):
     # larger heights: same kinds, all positions, seeded indices
     for h in range(7, 13):
         nsib = h - 4
-        nidx = 6 if thorough else 4
+        nidx = 14 if thorough else 4
         for _ in range(nidx):
             idx = rnd.randrange(2 ** h)
             for kind in verdict:
